@@ -110,6 +110,7 @@ def main():
     ctx.rng = random.Random(seed * 1000003 + int(pid[1:]))
     ctx.model = core.Model(driver) if driver else None
     ctx.search = False
+    ctx.is_worker = bool(a.worker)      # fixed-seed statistical checks are not repeated by the thorough tier's seed workers
     ctx.budget = 1.0 if tier == 'quick' else float(os.environ.get('VERIF_THOROUGH_FACTOR', '12'))
     ctx.translator = tstatus
 
